@@ -54,6 +54,7 @@ type Frame struct {
 	callSites map[ssa.Instruction]int
 	vacDone  map[int]bool
 	loops    []*loopCtx
+	callResults map[string]Val
 }
 
 const maxInlineDepth = 6
@@ -921,6 +922,17 @@ func (s *Session) step(fr *Frame, in ssa.Instruction, st *State) {
 		addr := s.valueOf(fr, x.Addr)
 		val := s.valueOf(fr, x.Val)
 		s.store(st, s.toLoc(addr), s.materializeFor(val))
+		// elements of compiler-generated literal arrays (variadic arguments, slice literals) are remembered
+		// symbolically so that function values and other non-scalar elements survive the trip through the heap
+		if ia, ok := x.Addr.(*ssa.IndexAddr); ok {
+			if al, ok2 := ia.X.(*ssa.Alloc); ok2 && (al.Comment == "varargs" || al.Comment == "slicelit") && addr.Loc != nil && len(addr.Loc.Idx) == 1 && isNumeral(addr.Loc.Idx[0].S) {
+				key := addr.Loc.Ref.S
+				if s.litCells[key] == nil {
+					s.litCells[key] = map[int]Val{}
+				}
+				s.litCells[key][atoi(addr.Loc.Idx[0].S)] = val
+			}
+		}
 	case *ssa.Convert:
 		s.setVal(fr, x, s.convert(fr, st, s.valueOf(fr, x.X), x.X.Type(), x.Type()))
 	case *ssa.ChangeType:
@@ -1044,6 +1056,14 @@ func (s *Session) unop(fr *Frame, x *ssa.UnOp, st *State) {
 	switch x.Op {
 	case token.MUL: // load
 		loc := s.toLoc(v)
+		if loc.Kind == "A" && len(loc.Idx) == 1 && isNumeral(loc.Idx[0].S) {
+			if cells, ok := s.litSlices[loc.Ref.S]; ok {
+				if cv, ok2 := cells[atoi(loc.Idx[0].S)]; ok2 && (cv.Clo != nil || cv.Fn != nil) {
+					fr.vals[x] = cv
+					return
+				}
+			}
+		}
 		lv := s.load(st, loc)
 		lv.Typ = x.Type()
 		for i := range lv.L {
@@ -1081,6 +1101,9 @@ func (s *Session) unop(fr *Frame, x *ssa.UnOp, st *State) {
 func (s *Session) wrap(x T, t types.Type) T {
 	lo, hi, bits, signed, ok := intRange(t)
 	if !ok {
+		return x
+	}
+	if v, isNum := numVal(x); isNum && v.Cmp(lo) >= 0 && v.Cmp(hi) <= 0 {
 		return x
 	}
 	m := bigT(pow2big(bits))
@@ -1459,6 +1482,9 @@ func (s *Session) sliceOp(fr *Frame, x *ssa.Slice, st *State) {
 			st.Heap[names[i]] = s.define("H", Store(h, ptr, av.L[i]))
 		}
 		s.note("slicing an array in %s copies it (aliasing with the array not modelled)", fr.fn.String())
+		if cells, ok := s.litCells[loc.Ref.S]; ok && loc.Path == "" {
+			s.litSlices[ptr.S] = cells
+		}
 		s.setVal(fr, x, Val{Typ: x.Type(), L: []T{ptr, lo, Sub(hi, lo)}})
 	default:
 		panic("slice of " + x.X.Type().String())
